@@ -82,7 +82,7 @@ func runC07s(rc *RunCtx) {
 			d0 := len(ms.W.Dials)
 			res := ms.probeTCP(addr, k, nil)
 			checks++
-			if len(ms.W.Dials) == d0 {
+			if len(ms.W.Dials) == d0 && !freshRefusalExcused(rc, k, res.wire) {
 				rc.Failf("fresh-handshake-refused:"+res.status, "op %d: a never-seen handshake under %s on %s was not served (no dial; status %s, history %d)", op, k.ID, addr, res.status, N)
 			}
 			seen = append(seen, &rec{wire: res.wire, key: k, checks: checks})
